@@ -139,9 +139,24 @@ def make_pmap(spec):
         stop = threading.Event()
         tasks = [Task(stop=stop, func=work, payload=p, pickable=identity, reraise=False, args=(), kwargs={}) for p in payloads]
         real_ac, real_tt, real_mem = pmapmod.as_completed, _time.thread_time, taskmod.memory_use
+        import sys as _sys
+        parprocmod = _sys.modules[parproc.__module__]      # (the package re-exports the function under the module's name)
+        real_mp = parprocmod.multiprocessing
+
+        class FakeMP:          # parproc() creates its stop event through multiprocessing.Manager(): a manager PROCESS per call; stubbed
+            class _Mgr:
+                def Event(self):
+                    return threading.Event()
+
+            def Manager(self):
+                return FakeMP._Mgr()
+
+            def cpu_count(self):
+                return 2
         try:
             pmapmod.as_completed = stub_as_completed
             taskmod.memory_use = lambda: 0
+            parprocmod.multiprocessing = FakeMP()
             try:
                 got = list(executor_pmap(StubPool, stop, taskproc, tasks, workers))
             except Exception as e:  # noqa: BLE001
@@ -150,6 +165,7 @@ def make_pmap(spec):
         finally:
             pmapmod.as_completed = real_ac
             taskmod.memory_use = real_mem
+            parprocmod.multiprocessing = real_mp
 
         def key(r):
             return (r.payload.i, r.outcome, type(r.exception).__name__ if r.exception is not None else None)
@@ -229,5 +245,5 @@ def plan(tier, seed):
         'functions_encoded': ['tatsu.parproc.pmap:active_pmap.executor_pmap', 'tatsu.parproc.parproc:parproc (sequential mode)', 'tatsu.parproc.task:taskproc/Task', 'tatsu.parproc.result:Result'],
         'bounds': f'payload lists of length 0..{4 if tier == "quick" else 5}, worker counts 1..3, every subset of raising payloads, every completion order of the pending futures',
         'outside': 'real process/thread pools, pickling and OS scheduling (one sampled native run only); KeyboardInterrupt and stop-event paths; undeclared exceptions (they propagate by design)',
-        'assumptions': ['stubs: executor class (subclass of ProcessPoolExecutor without processes), as_completed, memory_use'],
+        'assumptions': ['stubs: executor class (subclass of ProcessPoolExecutor without processes), as_completed, memory_use, multiprocessing.Manager (stop event) in the sequential mode'],
     }
